@@ -77,6 +77,11 @@ def collect_aliases(fn):
                     p = path_of(v["init"], al)
                     if p:
                         al[v["id"]] = p
+                elif v.get("init") is not None and (v.get("t") or "").replace("UTAP::", "") in ("const expression_t",):
+                    # expression_t is a handle: a const copy (`const expression_t body = expr[2];`) names the same node
+                    p = path_of(v["init"], al)
+                    if p and len(p) >= 2:
+                        al[v["id"]] = p
                 # auto [lower, upper] = type.get_range();   auto r = type.get_range();
                 src = pair_source(v.get("init")) if v.get("init") is not None else None
                 if src:
